@@ -986,3 +986,12 @@ func Implies(a, b Atom) bool {
 	}
 	return false
 }
+
+// Sub returns l - o; Plus returns l + o; AddK returns l + k (exported for property files).
+func (l Lin) Sub(o Lin) Lin    { return l.add(o, -1) }
+func (l Lin) Plus(o Lin) Lin   { return l.add(o, 1) }
+func (l Lin) AddK(k int64) Lin { out := l.scale(1); out.K += k; return out }
+func (l Lin) IsConst() bool    { return l.isConst() }
+
+// LEZero is the atom l <= 0.
+func LEZero(l Lin) Atom { return Atom{Kind: LE, L: l} }
